@@ -182,6 +182,15 @@ func (g *sgen) stmt() Stmt {
 			return Stmt{Kind: "simple", Lines: []string{g.v() + " = " + a}, Ticks: []int{t}}
 		}
 		return Stmt{Kind: "compound", Lines: []string{"if True:", in + g.v() + " = " + a, in + g.v() + " = 5"}, Ticks: []int{t}}
+	case x < 31 && r.Chance(1, 3):
+		// a backslash-newline INSIDE a single-quoted string literal continues the string on the next line
+		q := []string{"'", "\""}[r.Intn(2)]
+		if r.Chance(1, 2) {
+			return Stmt{Kind: "strcont", Lines: []string{g.v() + " = " + q + "ab\\", "cd" + q}}
+		}
+		a, t := g.tk("len(" + q + "ab\\")
+		_ = a
+		return Stmt{Kind: "strcont", Lines: []string{g.v() + " = tk(" + fmt.Sprint(t) + ", len(" + q + "ab\\", "cd" + q + "))"}, Ticks: []int{t}}
 	case x < 31:
 		a, t := g.tk(g.intExpr())
 		return Stmt{Kind: "backslash", Lines: []string{g.v() + " = 1 + \\", "    " + a}, Ticks: []int{t}}
@@ -279,7 +288,9 @@ func (g *sgen) stmt() Stmt {
 	case x < 37:
 		bad := []string{"x = = 1", "1 +* 2", "def (:", "v0 = )", "if", "for in x:", "v1 = 5 5", "class :", "return", "a b", "v0 = ) \\", "1 +* 2 \\",
 			// unexpected indent at the primary prompt: an error, nothing runs
-			"   v0 = 777", "\tv1 = 778", " v2 = 779  # c", "        v3 = 780"}
+			"   v0 = 777", "\tv1 = 778", " v2 = 779  # c", "        v3 = 780",
+			// erroneous lines whose TEXT holds the wording of the errors that mean "incomplete"
+			"s = \"unexpected EOF while parsing\" +* 2", "t = 'EOF while scanning triple-quoted string literal' = = 1", "1 +* 2  # unexpected EOF while parsing"}
 		return Stmt{Kind: "syntaxerr", Lines: []string{bad[r.Intn(len(bad))]}}
 	case x < 38:
 		a, t := g.tk("1")
